@@ -12,7 +12,7 @@ pub struct C17;
 
 const SEC: u64 = 1_000_000_000;
 const INTERVALS: [u16; 7] = [0, 1, 2, 3, 5, 10, 60];
-const PATTERNS: [&str; 6] = ["idle-client-live-server", "server-goes-silent", "server-talks-at-least-every-h", "client-busy-server-heartbeats", "one-frame-trickling-in", "server-goes-silent-then-client-closes"];
+const PATTERNS: [&str; 7] = ["idle-client-live-server", "server-goes-silent", "server-talks-at-least-every-h", "client-busy-server-heartbeats", "one-frame-trickling-in", "server-goes-silent-then-client-closes", "server-silent-instead-of-open-ok"];
 
 impl Scenario for C17 {
     fn property(&self) -> &'static str {
@@ -60,7 +60,13 @@ impl Scenario for C17 {
         let idle_total;
         let mut silence_at = None;
         match pat {
-            0 => {
+            6 if h > 0 => {
+                // the heartbeat is negotiated with TuneOk; the server reads Open and never answers: the attempt
+                // must fail with MissedServerHeartbeats about 2h after the server's last byte (the Tune)
+                broker.silent_instead_of_open_ok = true;
+                idle_total = 0;
+            }
+            0 | 6 => {
                 idle_total = if h == 0 { 10_000 * SEC } else { 20 * hs };
                 if h > 0 {
                     broker.heartbeat_every_ns = Some(hs / 2);
@@ -187,6 +193,23 @@ impl Scenario for C17 {
         let negotiated = world.broker.negotiated.as_ref().map(|t| t.heartbeat).unwrap_or(0);
         if negotiated != h {
             rep.violate("negotiated", "value", format!("client {} server {}: negotiated heartbeat {} (expected {})", cli_hb, srv_hb, negotiated, h));
+            return rep;
+        }
+        if pat == 6 && h > 0 {
+            let open = res.hist.conn.iter().find_map(|c| if let ConnRec::Open { result, .. } = c { Some(result.clone()) } else { None });
+            if open != Some(Err("MissedServerHeartbeats".to_string())) {
+                rep.violate("silent-before-open-ok", format!("{:?}", open).chars().take(40).collect::<String>(), format!("h={}: the server fell silent after Tune / Open: open returned {:?}", h, open));
+                return rep;
+            }
+            let last_in = n.last_inbound_ns;
+            let died = n.dropped_ns;
+            if died + 100_000_000 < last_in + 2 * hs || died > last_in + 2 * hs + 300_000_000 {
+                rep.violate("death-time", if died < last_in + 2 * hs { "early" } else { "late" }, format!("h={}: silent before OpenOk: last inbound byte at {} ns, attempt failed at {} ns = {:.3} s of silence (2h = {} s)", h, last_in, died, (died.saturating_sub(last_in)) as f64 / 1e9, 2 * h));
+                return rep;
+            }
+            rep.count("c17.deaths_timed", 1);
+            rep.nontrivial = true;
+            rep.distinct = spec.seed ^ ((h as u64) << 48) ^ ((pat as u64) << 44);
             return rep;
         }
         let close = res.hist.conn.iter().find_map(|c| if let ConnRec::Close { result, invoke_ns, .. } = c { Some((result.clone(), *invoke_ns)) } else { None });
